@@ -171,6 +171,67 @@ class Monitor:
                                first=[repr(gv[bad[0]]), repr(wv[bad[0]])] if bad.size else None)
                 ctx.violation('event_value', f'event {target} differs from the dense formula for the same event '
                               'and pixel', dict(case, **det), part='event_coord')
+            # ---- inelastic targets: NaN exactly for the unphysical events, decided by an independent t0
+            # (both twins evaluate the same kernel and share any branch that depends only on how dims nest)
+            if target == 'energy_transfer' and 'L1' in d.coords and 'L2' in d.coords:
+                from rv.oracle import si
+                m_n = si.constants()['m_n']
+                direct = 'incident_energy' in d.coords
+                E = d.coords['incident_energy' if direct else 'final_energy']
+                Lfix = d.coords['L1' if direct else 'L2']
+                t0 = (gather(Lfix, d.data).values.astype(si.LD) * si.factor(Lfix.unit)
+                      * np.sqrt(m_n / (2 * gather(E, d.data).values.astype(si.LD) * si.factor(E.unit))))
+                tofc = in_tab.coords[origin]
+                t = np.asarray(tofc.values)[idx].astype(si.LD) * si.factor(tofc.unit)
+                t0 = np.broadcast_to(t0, t.shape)
+                res_ev = np.asarray(out_tab.coords[target].values)[event_index(out.data)]
+                clear = np.abs(t - t0) > 1e-9 * t0
+                wrong = clear & (np.isnan(res_ev) != (t <= t0))
+                ctx.event('nan_rule')
+                ctx.count('nan_rule events decided', int(np.count_nonzero(clear)))
+                if np.any(wrong):
+                    i = int(np.argmax(wrong))
+                    ctx.violation('nan_rule', f'event energy_transfer is {res_ev[i]!r} for tof {float(t[i]):.6g} s with '
+                                  f't0 = {float(t0[i]):.6g} s (must be NaN exactly for tof <= t0)', case, part='nan_rule')
+            # ---- second reference: the usual dense layout, one pixel at a time (event coordinate along its
+            # own dimension, that pixel's geometry as scalars) -- a branch taken only when operand dims nest
+            # behaves identically in the flat twin above, but not here
+            if 1 <= d.data.ndim <= 2 and d.data.size <= 48:
+                c = d.bins.constituents
+                b_ = np.asarray(c['begin'].values).ravel()
+                e_ = np.asarray(c['end'].values).ravel()
+                oc = out.bins.constituents
+                ob_ = np.asarray(oc['begin'].values).ravel()
+                got_all = np.asarray(oc['data'].coords[target].values)
+                shape = d.data.shape
+                for flat_i in range(len(b_)):
+                    if e_[flat_i] - b_[flat_i] == 0:
+                        continue
+                    idx_nd = np.unravel_index(flat_i, shape)
+                    pc = {}
+                    for k, v in d.coords.items():
+                        if v.bins is not None or is_edges(v, d.data) or k == origin:
+                            continue
+                        vv = v
+                        for dim, ii in zip(d.data.dims, idx_nd, strict=True):
+                            if dim in vv.dims:
+                                vv = vv[dim, int(ii)]
+                        pc[k] = vv.copy()
+                    for k, v in in_tab.coords.items():
+                        if k.startswith('unrelated'):
+                            continue
+                        pc[k] = sc.array(dims=['ev_of_pixel'], values=np.asarray(v.values)[b_[flat_i]:e_[flat_i]],
+                                         unit=v.unit, dtype=v.dtype)
+                    ptwin = sc.DataArray(sc.ones(dims=['ev_of_pixel'], shape=[int(e_[flat_i] - b_[flat_i])]), coords=pc)
+                    pw = self.scn.convert(ptwin, origin, target, scatter=scatter).coords[target]
+                    g_ = got_all[ob_[flat_i]:ob_[flat_i] + (e_[flat_i] - b_[flat_i])]
+                    ctx.event('pixel_twin')
+                    if pw.unit != got.unit or not same_bits(g_, np.asarray(pw.values)):
+                        ctx.violation('event_value', f'event {target} of bin {flat_i} differs from the dense formula '
+                                      "applied to that pixel's events with that pixel's geometry",
+                                      dict(case, bin=int(flat_i), got=[repr(x) for x in g_[:3]],
+                                           expected=[repr(x) for x in np.asarray(pw.values)[:3]]), part='pixel_twin')
+                        break
             # ---- bin-edge coordinate converted with the same function
             if origin in d.coords and is_edges(d.coords[origin], d.data):
                 if target not in out.coords:
@@ -356,7 +417,7 @@ def plan(tier, seed):
 
 
 def requirements(tier):
-    return {'events': {'convert(binned)': 200, 'twin': 200, 'edges': 10, 'gravity_twin': 50},
+    return {'events': {'convert(binned)': 200, 'twin': 200, 'edges': 10, 'gravity_twin': 50, 'pixel_twin': 500, 'nan_rule': 10},
             'forced': ['layout:' + x for x in LAYOUTS] + ['evdtype:float32', 'evdtype:int64', 'mode:direct', 'mode:indirect']
             + ['gravity wavelength unit:' + u for u in ('angstrom', 'nm', 'm')],
             'counters': {'events_compared': 10000}}
